@@ -150,3 +150,29 @@ mod test {
         );
     }
 }
+
+/// Verification hooks, compiled only with `--cfg lettre_verif`
+#[cfg(lettre_verif)]
+pub mod verif_hooks {
+    use super::{ClientCodec, CodecStatus};
+
+    /// Runs the transparency codec over `frame` starting from `state`
+    /// (0 = middle of line, 1 = starting new line, 2 = start of new line)
+    pub fn codec_encode(state: u8, frame: &[u8]) -> (u8, Vec<u8>) {
+        let mut codec = ClientCodec {
+            status: match state {
+                0 => CodecStatus::MiddleOfLine,
+                1 => CodecStatus::StartingNewLine,
+                _ => CodecStatus::StartOfNewLine,
+            },
+        };
+        let mut buf = Vec::new();
+        codec.encode(frame, &mut buf);
+        let s = match codec.status {
+            CodecStatus::MiddleOfLine => 0,
+            CodecStatus::StartingNewLine => 1,
+            CodecStatus::StartOfNewLine => 2,
+        };
+        (s, buf)
+    }
+}
